@@ -34,11 +34,11 @@ open Mpd
 /-! ## `SongRange` -/
 
 /-- `str::split_once(c)` for an ASCII `c`: split at the first occurrence -/
-def splitOnce (c : UInt8) : Bytes → Option (Bytes × Bytes)
+def splitOnceS (c : UInt8) : Bytes → Option (Bytes × Bytes)
   | [] => none
   | b :: bs =>
     if b = c then some ([], bs)
-    else match splitOnce c bs with
+    else match splitOnceS c bs with
       | some (a, r) => some (b :: a, r)
       | none => none
 
@@ -50,7 +50,7 @@ deriving DecidableEq, Repr
 
 /-- `FromFieldValue for SongRange`: `"<start>-<end?>"`, split at the FIRST `-` -/
 def parseRange (v : Bytes) : Option SongRange :=
-  match splitOnce DASH v with
+  match splitOnceS DASH v with
   | none => none
   | some (a, b) =>
     match parseDuration a with
